@@ -423,13 +423,24 @@ def run(case, ctx):
                 import warnings
                 with warnings.catch_warnings():
                     warnings.simplefilter("ignore")
-                    placements, allocations, app_map, tables = wr.wrapper(
-                        vr, {v: "app" for v in vr}, nets, net_keys, machine,
-                        par.build_constraints(
-                            [c for c in cd if c[:4] != ("reserve", "Cores",
-                                                        0, 1)]),
-                        place=place_fn, place_kwargs=pkw,
-                        route_kwargs=dict(radius=case["radius"]))
+                    if case["radius"] % 2:
+                        # the monitor reservation made by the caller
+                        # instead of the wrapper
+                        ctx.hit("wrapper_without_monitor_reservation")
+                        placements, allocations, app_map, tables = wr.wrapper(
+                            vr, {v: "app" for v in vr}, nets, net_keys,
+                            machine, par.build_constraints(cd), False,
+                            rng.random() < .5, place=place_fn,
+                            place_kwargs=pkw,
+                            route_kwargs=dict(radius=case["radius"]))
+                    else:
+                        placements, allocations, app_map, tables = wr.wrapper(
+                            vr, {v: "app" for v in vr}, nets, net_keys,
+                            machine, par.build_constraints(
+                                [c for c in cd
+                                 if c[:4] != ("reserve", "Cores", 0, 1)]),
+                            place=place_fn, place_kwargs=pkw,
+                            route_kwargs=dict(radius=case["radius"]))
                 unminimised = None
             else:
                 placements = place_fn(vr, nets, machine, constraints, **pkw)
